@@ -1090,6 +1090,10 @@ class Interp:
 
     def equal(self, a, b, node):
         a, b = self.force(a, node), self.force(b, node)
+        if isinstance(a, (BuiltinV, BoundMethod, ModuleV, PartialV)) or isinstance(b, (BuiltinV, BoundMethod, ModuleV, PartialV)):
+            if isinstance(a, BoundMethod) and isinstance(b, BoundMethod):
+                return a.func is b.func and a.self_obj is b.self_obj
+            return a is b
         if isinstance(a, (Obj, Ext, ClassV, FuncV, ListV, DictV)) or isinstance(b, (Obj, Ext, ClassV, FuncV, ListV, DictV)):
             if isinstance(a, Obj) and a.cls.lookup("__eq__")[1] is not None:
                 self.unsupported("__eq__", node)
